@@ -607,6 +607,7 @@ func (server *Server) registerCoreExecutors() {
 			if !isOption {
 				break
 			}
+			param, err = args.NextString()
 		}
 		if err != nil {
 			return nil, newMissingArgumentError(cmd, "score", err)
@@ -615,7 +616,7 @@ func (server *Server) registerCoreExecutors() {
 		members := []*ZSetMember{}
 		member, err := args.NextString()
 		if err != nil {
-			err = newMissingArgumentError(cmd, "member", err)
+			return nil, newMissingArgumentError(cmd, "member", err)
 		}
 		for err == nil {
 			members = append(members, &ZSetMember{Score: score, Member: member})
@@ -625,7 +626,7 @@ func (server *Server) registerCoreExecutors() {
 			}
 			member, err = nextStringArgument(cmd, "member", args)
 			if err != nil {
-				break
+				return nil, err
 			}
 		}
 		if !errors.Is(err, proto.ErrEOM) {
